@@ -608,14 +608,14 @@ static xmp_context open_ctx(const char *path, const struct cfg *c, int apply_mut
 		xmp_free_context(x);
 		return NULL;
 	}
-	if (c->a500)
-		xmp_set_player(x, XMP_PLAYER_FLAGS, XMP_FLAGS_A500);
 	if (xmp_start_player(x, c->rate, c->fmt) < 0) {
 		xmp_release_module(x);
 		xmp_free_context(x);
 		return NULL;
 	}
 	libxmp_set_random(&ctx->rng, 0x12345678u);
+	if (c->a500)	/* Paula kernels for Amiga modules (current-module flags) */
+		xmp_set_player(x, XMP_PLAYER_CFLAGS, xmp_get_player(x, XMP_PLAYER_CFLAGS) | XMP_FLAGS_A500);
 	xmp_set_player(x, XMP_PLAYER_INTERP, c->interp);
 	xmp_set_player(x, XMP_PLAYER_AMP, c->amp);
 	xmp_set_player(x, XMP_PLAYER_MIX, c->mix);
@@ -652,7 +652,7 @@ static void random_cfg(struct cfg *c)
 	c->master = vrng_chance(30) ? 100 : vrng_range(1, 200);
 	c->smixvol = 100;
 	c->dsp = vrng_chance(80) ? XMP_DSP_LOWPASS : 0;
-	c->a500 = vrng_chance(10);
+	c->a500 = vrng_chance(25);
 	for (i = 0; i < XMP_MAX_CHANNELS; i++)
 		c->mute[i] = vrng_chance(10);
 }
@@ -969,7 +969,7 @@ static int mode_solosum(uint64_t seed, int nframes, const char *path)
 	random_cfg(&c);
 	c.fmt &= XMP_FORMAT_MONO;	/* 16-bit signed */
 	c.amp = vrng_below(2);
-	c.a500 = 0;
+	c.a500 = vrng_chance(15);
 	c.master = vrng_chance(50) ? 100 : vrng_range(20, 120);
 	for (i = 0; i < XMP_MAX_CHANNELS; i++)
 		c.mute[i] = 0;
@@ -1088,7 +1088,7 @@ static int mode_sep(uint64_t seed, int nframes, const char *path)
 	seed_for(seed, path, 6);
 	random_cfg(&c);
 	c.fmt = 0;	/* 16-bit signed stereo */
-	c.a500 = 0;
+	c.a500 = vrng_chance(15);
 	for (i = 0; i < XMP_MAX_CHANNELS; i++)
 		c.mute[i] = 0;
 	c.mix = vrng_chance(30) ? 100 : vrng_range(1, 100);
